@@ -77,6 +77,25 @@ ModTimeD(W, pn, D) == LET S == {When(c) : c \in LiveAttrClaimsD(W, pn, D)} \cup
                       IN IF S = {} THEN Zero ELSE CHOOSE m \in S : \A d \in S : TLeq(d, m)
 ModTime(W, pn) == ModTimeD(W, pn, Deviations)
 
+(* ---- look-up BY VALUE (index rows signerattrvalue, Index.SearchPermanodesWithAttr): the undeleted permanodes
+   whose attribute attr holds value v for the signer as of T.  With equal-dated claims the answer is only
+   constrained where every order agrees: Must = in under every order, May = in under some order.
+   Deviation "ValueLookupIgnoresLaterClaims": the rows are one per set/add claim, and the look-up matches every live
+   claim of the value dated no later than T, whether or not a later claim replaced or removed the value. *)
+PNs(W) == {p.id : p \in {p \in W : p.kind = "permanode"}}
+HoldsIn(s, v) == v \in SeqSet(s)
+WithAttrMustD(W, attr, v, T, signer, D) ==
+   {pn \in PNs(W) : ~Deleted(W, pn) /\ \A s \in AttrValuesD(W, pn, attr, T, signer, D) : HoldsIn(s, v)}
+WithAttrMayD(W, attr, v, T, signer, D) ==
+   {pn \in PNs(W) : ~Deleted(W, pn) /\ \E s \in AttrValuesD(W, pn, attr, T, signer, D) : HoldsIn(s, v)}
+EverClaimed(W, attr, v, T, signer) ==
+   {c.pn : c \in {c \in W : /\ c.kind = "claim" /\ c.claim \in {"set", "add"} /\ c.attr = attr /\ c.val = v
+                              /\ c.signer = signer /\ ~Deleted(W, c.id) /\ ~Deleted(W, c.pn)
+                              /\ (T = Zero \/ TLeq(When(c), T))}}
+WithAttrOkD(R, W, attr, v, T, signer, D) ==
+   IF "ValueLookupIgnoresLaterClaims" \in D THEN R = EverClaimed(W, attr, v, T, signer)
+   ELSE WithAttrMustD(W, attr, v, T, signer, D) \subseteq R /\ R \subseteq WithAttrMayD(W, attr, v, T, signer, D)
+
 (* live claims about a permanode as the index lists them: attribute claims and delete claims on the permanode itself *)
 ClaimsAbout(W, pn, attr, signer) ==
    {c.id : c \in {c \in W : /\ \/ (c.kind = "claim" /\ c.pn = pn)
